@@ -97,7 +97,8 @@ def base_cfg(rng, wk=None, qkind=None, conc=None):
     if _STRAT is not None:
         wk0, qk0 = WKS[_STRAT % 3], ['fifo', 'prio'][(_STRAT // 3) % 2]
     qk = qkind or qk0
-    return {'wk': wk or wk0, 'conc': conc or rng.choice([1, 1, 2, 3]), 'queues': [qk],
+    idg = rng.random() < 0.15          # the worker has an ID generator and the submissions choose no ID
+    return {'idgen': idg, 'wk': wk or wk0, 'conc': conc or rng.choice([1, 1, 2, 3]), 'queues': [qk],
             'errs_reader': rng.random() < 0.5}
 
 
